@@ -183,6 +183,12 @@ pub fn jobs(id: &str, thorough: bool) -> Vec<Job> {
                 v.push(Job::B { cfg, bound });
             }
         }
+        "C19" => {
+            v.push(Job::Other {
+                name: "E/config",
+                run: crate::engine_e::run,
+            });
+        }
         "C17" => {
             v.push(Job::Other {
                 name: "F/plain",
